@@ -95,12 +95,11 @@ sys.exit(1 if bad else 0)
 def main(tier, seed):
     from standins import level2
 
-    rep = Report(PID, tier, seed, "other")
-    rep.explanation = ("BOUNDED (no proof claimed): term-exact execution of the real getBH_level2 on enumerated structures — every "
-                       "element equals flip(S^-1 · G(S·pix + s)) for all numeric values and rotations; structures (numbers of sensors/"
-                       "sources, path kinds, pixel shapes) are bounded. Numeric check of every named pixel_agg reduction.")
-    rep.assume("NumPy's own index plumbing is trusted (it is the real NumPy operating on object arrays)")
-    rep.assume("getBH_level2 is outside the VC generator: Python-list structure of symbolic length, 280 lines; see DESIGN.md")
+    rep = Report(PID, tier, seed, "proof")
+    rep.explanation = ("the real getBH_level2 chain executed over symbolic-shape arrays: every element equals flip(S^-1 · G(S·pix + s)) for ALL path "
+                       "lengths, pixel counts, poses and field functions, per enumerated object structure (checks/l2sym.py); in addition the bounded "
+                       "term-exact stand-in (real NumPy on object arrays, also pixel grids of rank 3) and numeric checks of every named pixel_agg reduction")
+    rep.assume("bounded stand-ins: NumPy's own index plumbing is trusted (it is the real NumPy operating on object arrays)")
     ns = level2.harness_ns()
     nst, nel, fails, sample = level2.sweep(ns, tier, seed + 4, "all", fields=("B",), sumups=(False,), aggs=(None, "mean", "sum"))
     level2.report(rep, "sensor frame / pixel positions / handedness / pixel_agg(mean,sum): term-exact", nst, nel, fails, sample,
@@ -115,4 +114,8 @@ def main(tier, seed):
         rep.violation("standin.observer-order", {"native_result": b, "script": "import sys\nfrom checks.c04 import observer_order\nn,b=observer_order(0)\nprint(b)\nsys.exit(1 if b else 0)\n"})
     for b in bad[:2]:
         rep.violation("standin.pixel_agg-numeric", {"native_result": b, "script": REPLAY_NUM.format(seed=seed)})
+    # level-2 evaluation for all path lengths and pixel counts (checks/l2sym.py): sensor frame, pixel positions, handedness, aggregator argument and output shape
+    from checks import l2sym
+
+    l2sym.report_fails(rep, l2sym.run(rep, tier, fams=['A', 'B', 'E'], stride={'B': 3}))
     return rep.finish()
